@@ -10,7 +10,7 @@ from ..core import cstr, clist, cpair, cZ, copt
 
 ID = "C13"
 THEOREM_FILE = "Properties/C13.v"
-IMPORTS = "From Annet Require Import Base.Str Model.Json Spec.P_C13 Spec.P_C13_arr."
+IMPORTS = "From Annet Require Import Base.Str Model.Json Spec.P_C13 Spec.P_C13_arr Spec.P_C13_sess."
 META = {
     "text": "Proof (Coq, unbounded induction over documents and pointer lists) about the model of jsontools.py. "
             "Fragments, regime 1 (one schema, glob pointers address object members; members are added, replaced and "
@@ -29,7 +29,20 @@ META = {
             "on the real outputs of apply_json_fragment, make_patch, apply_patch, apply_acl_filters over random one-schema "
             "documents (keys with / ~ | * ? [ ]), a glob-twin family (a key spelled like the pattern next to keys the "
             "glob matches), exhaustive small scopes for objects and for arrays, and applies the REAL library's diff with "
-            "the MODEL's apply_ops case by case.",
+            "the MODEL's apply_ops case by case. "
+            "API sequence and purity (Spec/P_C13_sess.v): for every implementation that returns what the model returns "
+            "AND leaves its arguments alone, merge -> make_patch(the same old, result) -> apply_patch(original old) gives "
+            "the merged document (C13_session_roundtrip_partial under the hypothesis on the third-party differ, "
+            "C13_session_roundtrip_verified_differ / C13_session_holds with the verified differ, any number of chained "
+            "generators); the purity clause is proved necessary (C13_session_needs_purity: an implementation with the "
+            "model's return value for every input that leaves the result in `old` uploads an empty patch). TESTED on the "
+            "real code: sessions on ONE old object - chained apply_json_fragment (1-3 generators; fragments drawn from the "
+            "schema, pure removals, no-ops; an exhaustive scope), make_patch(old object, result), apply_patch(serialised "
+            "ORIGINAL old, patch) - with Coq evaluating P_C13_session (old still has its value + the existing round-trip "
+            "predicate on the real patch) and model==implementation on every intermediate document; and for EVERY call "
+            "of the four entry points in every case a flag 'mutated' COMPUTED BY THE RUNNER (not by Coq): the serialised "
+            "text (key order, bool/int, container kinds) of each object handed to the function, taken before, equals its "
+            "text afterwards.",
     "technique": "Coq induction with pointwise get/put/replace/delete lemmas on association-list documents; section "
                  "hypothesis for jsonpatch's diff plus a verified Gallina differ discharging it; vm_compute differential "
                  "check against the implementation",
@@ -42,7 +55,10 @@ META = {
             "case by case by applying the library's operations with the model; jsonpatch 1.33 itself fails on rare "
             "array/move inputs — listed finding); what is proved unconditionally concerns the Gallina differ, which "
             "treats arrays as leaves. Theorems are about the Gallina model; the model is tied to /repo by the "
-            "correspondence run (0 disagreements).",
+            "correspondence run (0 disagreements). "
+            "(3) Purity of the Python functions (arguments left as they were) is not a statement about the Gallina model "
+            "(pure by construction): it is the explicit premise `leaves_inputs` of the session theorems, observed on the "
+            "real code by the runner's 'mutated' flag (a plain equality of two real values) and by P_C13_session.",
 }
 
 PLAIN = ["a", "b", "c", "d", "x1", "0", "1"]
@@ -326,6 +342,92 @@ def exhaustive_arrays(thorough):
                 yield {"kind": "frag", "old": old, "f": fr, "acl": list(acl), "src": "exhaustive-arrays"}
 
 
+# ----------------------------------------------------------------------------------------
+# sessions: the operation sequence the API performs on ONE old object (runner kind "session"):
+# chained apply_json_fragment over one document, make_patch(old object, result), apply_patch on the
+# serialised ORIGINAL old.  Fragment flavours: drawn from the schema / the old document with members taken
+# away (a generator that stopped producing entries: pure removals) / the old document itself (nothing to do).
+
+def prune(rng, d, p, depth=0):
+    """a copy of d with members taken away (below the top level mostly): what a fragment looks like when the
+    generator stopped producing some entries"""
+    if isinstance(d, dict):
+        out = {}
+        for k, v in d.items():
+            if rng.random() < (p if depth else p / 3):
+                continue
+            out[k] = prune(rng, v, p, depth + 1)
+        return out
+    return copy.deepcopy(d)
+
+
+def gen_session(rng):
+    s = gen_schema(rng, 0, rng.choice([0.0, 0.25, 0.5]))
+    mode = "objects" if rng.random() < 0.85 else "any"
+    old = inst(rng, s, keep=0.85)
+    steps = []
+    flav = []
+    cur = old
+    for _ in range(rng.choice([1, 1, 1, 2, 2, 3])):
+        r = rng.random()
+        if r < 0.4:
+            f, fl = inst(rng, s, keep=rng.choice([0.4, 0.6, 0.9])), "random"
+        elif r < 0.85:
+            f, fl = prune(rng, cur, rng.choice([0.3, 0.6, 1.0])), "removal"
+        else:
+            f, fl = copy.deepcopy(cur), "same"
+        steps.append([f, gen_acl(rng, s, mode)])
+        flav.append(fl)
+        cur = f if fl != "random" else cur
+    return {"kind": "session", "old": old, "steps": steps, "src": "session-" + "+".join(sorted(set(flav)))}
+
+
+SESS_EXH_ACLS = [["/a/*"], ["/*/x"], ["/a/x"], ["/a/y", "/a"], ["/*"], ["/a/x", "/b~1c"]]
+
+
+def exhaustive_sessions(thorough):
+    """every (old, fragment) over the 15 documents of the exhaustive fragment scope as a one-step session,
+    and every pair of fragments as a two-step chain for the first pointer list"""
+    docs = []
+    for a in EXH_DOCS_A:
+        for b in EXH_DOCS_B:
+            d = {}
+            if a is not None:
+                d["a"] = a
+            if b is not None:
+                d["b/c"] = b
+            docs.append(d)
+    acls = SESS_EXH_ACLS if thorough else SESS_EXH_ACLS[:2]
+    for old in docs:
+        for f in docs:
+            for acl in acls:
+                yield {"kind": "session", "old": old, "steps": [[f, acl]], "src": "session-exhaustive"}
+    if thorough:
+        for old in docs[::2]:
+            for f in docs[::2]:
+                for g in docs[1::3]:
+                    yield {"kind": "session", "old": old, "steps": [[f, ["/a/*"]], [g, ["/*/x"]]],
+                           "src": "session-exhaustive"}
+
+
+def gen_sessions(ctx):
+    T = ctx.thorough
+    rng = ctx.rng("session")               # own stream: the older families keep their inputs
+    out = list(exhaustive_sessions(T))
+    n_exh = len(out)
+    n_rand, n_twin = (5000, 600) if T else (450, 90)
+    for _ in range(n_rand):
+        out.append(gen_session(rng))
+    for _ in range(n_twin):
+        c = gen_glob_twin(rng, "frag")
+        out.append({"kind": "session", "old": c["old"], "steps": [[c["f"], c["acl"]]], "src": "session-glob-twin"})
+    ctx.coverage.setdefault("input_distribution", {}).update({
+        "sessions_exhaustive_scope": n_exh, "sessions_random": n_rand, "sessions_glob_twin": n_twin,
+        "session": "chained apply_json_fragment (1-3 generators) on ONE old object, make_patch(old object, result), "
+                   "apply_patch(serialised original old, patch)"})
+    return out
+
+
 def gen_cases(ctx):
     rng = ctx.rng("gen")
     T = ctx.thorough
@@ -377,6 +479,7 @@ def gen_cases(ctx):
         "glob_twin_family": n_twin, "exhaustive_array_scope": len(arr),
         "exhaustive_scope": "all (old, f) over 15 documents of the schema {a:{x,y}, 'b/c'} x %d pointer lists"
                             % (len(EXH_ACLS) if T else 6)}
+    cases += gen_sessions(ctx)
     return cases
 
 
@@ -503,6 +606,26 @@ PATCH_PREDS = {
 APPLY_PREDS = {"agree": "fun c => ojeq (apply_ops (snd (fst c)) (fst (fst c))) (snd c)"}
 
 
+SESS_TY = "sess_in * sess_out"
+SESS_PREDS = {"agree": "fun c => sess_agree V (fst c) (snd c)",
+              "holds": "fun c => P_C13_session (fst c) (snd c)",
+              "old_kept": "fun c => P_sess_old_kept (fst c) (snd c)",
+              "lib_ok": "fun c => sess_lib_ok (fst c) (snd c)"}
+
+
+def sess_term(c, o):
+    x = cpair(cj(c["old"]), clist(cpair(cj(f), clist(cstr(a) for a in acl)) for f, acl in c["steps"]))
+    y = cpair(clist(cout(d) for d in o["docs"]), oops(o["lib"]), oops(o["patch"]), cout(o["applied"]),
+              cout(o["old_after"]))
+    return cpair(x, y)
+
+
+def arg_class(name):
+    """'fragment[1]' -> 'fragment', 'result[0]' -> 'earlier-result', 'old(2nd merge)' -> 'old'"""
+    base = name.split("[")[0].split("(")[0]
+    return {"result": "earlier-result"}.get(base, base)
+
+
 def frag_term(c, o):
     x = cpair(cj(c["old"]), cj(c["f"]), clist(cstr(a) for a in c["acl"]))
     return cpair(x, cpair(cout(o["r"]), cout(o["rr"])))
@@ -579,8 +702,17 @@ def size(c):
 def evaluate(ctx, cases, outs, v, tag=""):
     """Coq evaluates agree/holds for every kind; returns list of (index, signature, what)."""
     extra = vdef(v)
-    idx = {k: [i for i, c in enumerate(cases) if c["kind"] == k] for k in ("frag", "filter", "patch", "apply")}
+    idx = {k: [i for i, c in enumerate(cases) if c["kind"] == k]
+           for k in ("frag", "filter", "patch", "apply", "session")}
     viol, disagree = [], []
+    # purity: an object handed to one of the four entry points no longer serialises to the text it had (flag
+    # computed by the runner on the real objects: equality of two real values, no model involved)
+    for i, (c, o) in enumerate(zip(cases, outs)):
+        for fn, arg in o.get("mutated", []):
+            viol.append((i, f"C13/purity/{fn}-modifies-its-argument-{arg_class(arg)}",
+                         f"{fn} changed the object passed as `{arg}` (inputs must be left as they were: the caller "
+                         f"goes on using them, e.g. make_patch(old, new) after apply_json_fragment(old, ...)): "
+                         f"case={json.dumps(runner_payload(c))} -> {json.dumps({k: v for k, v in o.items() if k != 'mutated'})}"))
 
     def run(kind, ty, preds, term, t):
         ii = idx[kind]
@@ -667,11 +799,51 @@ def evaluate(ctx, cases, outs, v, tag=""):
     ctx.coverage["library_hypothesis_failures"] += len(lib_bad)
     r = run("apply", APPLY_TY, APPLY_PREDS, apply_term, "apply")
     disagree += r["agree"]
+    # sessions: one old object through merge(s) -> make_patch -> apply_patch on the serialised original
+    r = run("session", SESS_TY, SESS_PREDS, sess_term, "sess")
+    disagree += r["agree"]
+    lib_bad = set(r["lib_ok"])
+    ctx.coverage["library_hypothesis_failures"] += len(lib_bad)
+    for i in r["holds"]:
+        c, o = cases[i], outs[i]
+        desc = (f"old={json.dumps(c['old'])} steps={json.dumps(c['steps'])} -> docs={json.dumps(o['docs'])} "
+                f"patch={json.dumps(o['patch'])} applied-to-original={json.dumps(o['applied'])} "
+                f"old-object-afterwards={json.dumps(o['old_after'])}")
+        if i in r["old_kept"]:
+            viol.append((i, "C13/session/old-document-modified",
+                         "after apply_json_fragment(old, f, acl) [+ make_patch(old, result)] the caller's old document "
+                         "no longer has its value: " + desc))
+            if not _sess_roundtrip_ok(o):
+                viol.append((i, "C13/session/patch-made-from-the-same-old-object-does-not-reproduce-result",
+                             "apply_patch(serialised original old, make_patch(old object, result)) != result: " + desc))
+        elif "exc" in o["lib"]:
+            viol.append((i, "C13/patch/jsonpatch-make_patch-raises",
+                         f"third-party jsonpatch.make_patch raises {o['lib']['exc']} in a session: " + desc))
+        elif i in lib_bad:
+            viol.append((i, "C13/patch/jsonpatch-diff-does-not-reproduce-target",
+                         "third-party jsonpatch.make_patch applied in its own order does not give the target "
+                         f"(session): ops={json.dumps(o['lib'])} " + desc))
+        elif v["v_sorted"]:
+            viol.append((i, "C13/patch/make_patch-operation-order",
+                         "apply_patch(old, make_patch(old,new)) != new although the library's operation order works "
+                         "(session): " + desc))
+        else:
+            viol.append((i, "C13/session/patch-made-from-the-same-old-object-does-not-reproduce-result",
+                         "apply_patch(serialised original old, make_patch(old object, result)) != result: " + desc))
     return viol, disagree
+
+
+def _sess_roundtrip_ok(o):
+    """labelling only (the verdict is Coq's P_C13_session): did the device end up with the final document"""
+    if not o["docs"] or "exc" in o["docs"][-1]:
+        return True               # a step raised: there is no patch to judge
+    return o["applied"] == {"ok": o["docs"][-1]["ok"]}
 
 
 def nontrivial(c, o):
     k = c["kind"]
+    if k == "session":
+        return any("exc" in d for d in o["docs"]) or (bool(o["docs"]) and o["docs"][-1].get("ok") != c["old"])
     if k == "frag":
         return "exc" in o["r"] or o["r"]["ok"] != c["old"]
     if k == "filter":
@@ -744,6 +916,9 @@ def run(ctx):
         "comparing a bool member with 0/1; the raw-operation stream avoids that pair)",
         "the verified differ (Proofs/JsonDiffProofs.diff) is a Gallina function, not the library's algorithm: it shows "
         "the Section hypothesis satisfiable; the library's own output is checked per case (lib_ok)",
+        "purity (a call leaves the objects handed to it with the value they had) is the premise leaves_inputs of the "
+        "session theorems; on the real code it is the runner's 'mutated' flag: json.dumps text of every argument "
+        "before == after, for all four entry points in every case, and the old object of every session as seen by Coq",
     ]
 
 
